@@ -13,11 +13,15 @@ P = dict(
         # thick polylines: the transcribed scanline renderer (EGThick), one row per step; control = edges_bounding_box before D19
         dict(module="MC_C02p", quick_cfg="MC_C02p.cfg", thorough_cfg="MC_C02p_thorough.cfg", workers=10, thorough_timeout=3000),
         dict(module="MC_C02p", thorough_cfg="MC_C02p4.cfg", workers=10),
-        dict(module="MC_C02p", quick_cfg="MC_C02p_control.cfg", expect_violation=True, coverage=False, workers=6)],
+        dict(module="MC_C02p", quick_cfg="MC_C02p_control.cfg", expect_violation=True, coverage=False, workers=6),
+        # centre-aligned thick triangle strokes with and without fill (EGThickTri), one row per step
+        dict(module="MC_C02t", quick_cfg="MC_C02t.cfg", thorough_cfg="MC_C02t_thorough.cfg", workers=10, thorough_timeout=3000),
+        dict(module="MC_C02t", thorough_cfg="MC_C02t_nofill.cfg", workers=10),
+        dict(module="MC_C02t", quick_cfg="MC_C02t_control.cfg", expect_violation=True, coverage=False, workers=6)],
     required_events=["draw"], drift_checked=True,
     level_text="MC_C02 steps the transcribed Text::draw / draw_string machine (shared with MC_C15) over abstract fonts whose "
                "decorations lie below and inside the cell and checks after every step that the painted set is inside the "
-               "transcribed bounding_box() (control: the snapshot's measure_string, D10, is refuted); the styled rectangle / circle (MC_C06), ellipse / rounded rectangle (MC_C06e) and stroked line (MC_C17 with the transcribed Line::extents) machines are run with the invariant 'everything painted so far lies inside the transcribed styled_bounding_box(), a transparent style paints nothing' (three controls: the stroke forgotten, a one-sided line box); MC_C02p renders THICK POLYLINES with the transcribed scanline renderer (EGThick: line joins, thick segments, Bresenham intersections, scanline merging; all vertex triples of a grid x widths) row by row and checks every scanline against the transcribed styled bounding box - TLC finds the witness of defect D19 by itself when given edges_bounding_box as it was before the repair (control); Trace_C02 compares bounding box and painted set of every small thick polyline of the run with that transcription (DRIFT, 0 on this tree); TLC checks for every recorded drawable that all points written on an unbounded target lie inside "
+               "transcribed bounding_box() (control: the snapshot's measure_string, D10, is refuted); the styled rectangle / circle (MC_C06), ellipse / rounded rectangle (MC_C06e) and stroked line (MC_C17 with the transcribed Line::extents) machines are run with the invariant 'everything painted so far lies inside the transcribed styled_bounding_box(), a transparent style paints nothing' (three controls: the stroke forgotten, a one-sided line box); MC_C02p renders THICK POLYLINES with the transcribed scanline renderer (EGThick: line joins, thick segments, Bresenham intersections, scanline merging; all vertex triples of a grid x widths) row by row and checks every scanline against the transcribed styled bounding box - TLC finds the witness of defect D19 by itself when given edges_bounding_box as it was before the repair (control); Trace_C02 compares bounding box and painted set of every small thick polyline of the run with that transcription (DRIFT, 0 on this tree); MC_C02t does the same for centre-aligned thick TRIANGLE strokes with and without fill (EGThickTri: the three thick segments, left / right merging, fill between the stroke ranges, the iteration that ends at the first empty row; control: the stroke forgotten in the box), bound by the same DRIFT comparison; TLC checks for every recorded drawable that all points written on an unbounded target lie inside "
                "bounding_box() and that transparent styles write nothing: the styled-primitive / image catalogue, wide strokes "
                "on lines, triangles and polylines, and text in EVERY built-in font x strings x baselines x alignments x "
                "colour/decoration combinations x line heights",
